@@ -55,7 +55,7 @@ CLAIMED = {
    technique="Lean 4 proof (inductive invariant over operation histories of the hub model) + differential correspondence through the HTTP handlers under a virtual clock",
    design="§8 C01"),
  "C15": dict(
-   text="Theorems: closing marks every registered subscriber's stream ended; a publish after close changes nothing and is not answered 200; a subscribe after close is refused and registers nothing; closing twice is the identity; a restart keeps the stored history and reports the last stored id; without retention the stored history is exactly the accepted updates after any history including closes and restarts. Region level: see C14's model (close_ends_registered / after_close_rejected). Tie: hub histories with close/restart, and controlled schedules with Close racing the other operations; oracle 'transport closed ⇒ every registered subscriber's channel is closed'.",
+   text="Theorems: closing marks every registered subscriber's stream ended; a publish after close changes nothing and is not answered 200; a subscribe after close is refused and registers nothing; closing twice is the identity; a restart keeps the stored history and reports the last stored id; without retention the stored history is exactly the accepted updates after any history including closes and restarts. Region level: see C14's model (close_ends_registered / after_close_rejected). Tie: hub histories with close/restart (also while a cut-off slow consumer is still listed), and controlled schedules with Close racing the other operations over 2-4 registered subscribers some of which have already ended; oracles 'transport closed ⇒ every subscriber registered before the close began has its channel closed' and 'hub closed ⇒ every stream whose writer is not blocked has ended'.",
    note=TB + SEQ,
    technique="Lean 4 proof (operation-level lemmas + history invariant) + differential correspondence (hub histories, controlled schedules)",
    design="§8 C15"),
